@@ -66,6 +66,10 @@ pub enum SizeError {
         actual: u64,
     },
 
+    /// The sum of the entry esizes does not fit in 64 bits
+    #[error("Sum of esizes does not fit in 64 bits")]
+    TotalSizeOverflow,
+
     /// Binary read/write error
     #[error("Binary parsing error: {0}")]
     BinRead(String),
